@@ -94,7 +94,9 @@ var c16Long = strings.Repeat("L", 300)
 var c16Tokens = []string{"NX", "nx", "XX", "EX", "ex", "PX", "EXAT", "PXAT", "MATCH", "COUNT", "count", "RC", "RW", "LC", "CR",
 	"", "0", "1", "-1", "0.5", "1e309", "NaN", "9223372036854775807", "18446744073709551616", "999999", "abc", "d", "k", "\x00\xfe\xff", c16Long, "deadbeef",
 	// the smallest well-formed msgpack documents: payloads that decode and are rejected later
-	"\x80", "\x90", "\xc0"}
+	"\x80", "\x90", "\xc0",
+	// patterns that do not compile
+	"[", "(?"}
 
 // valid prefixes: a well-formed command to which option suffixes are appended
 func c16ValidCommands(rawEntry, movePayload, routePayload string, coordID string) [][]string {
@@ -318,6 +320,26 @@ func (r *c16Runner) runOnce(args []string, name string, populated bool) {
 		r.col.Label("outcome:error-reply", 1)
 	default:
 		r.col.Label("outcome:ok", 1)
+	}
+	// "... and keeps serving": on the populated member the seeded keys are read once more behind the vector. A
+	// request that was answered but left something locked shows here (the next vector starts from wiped DMaps).
+	if populated && out.panicVal == nil && len(r.seedKeys) > 0 && name != "dm.lock" {
+		for _, k := range []string{r.seedKeys[0], r.seedKeys[len(r.seedKeys)-1]} {
+			probe := []string{"dm.get", "d", k}
+			r.work <- probe
+			t2 := time.NewTimer(10 * time.Second)
+			select {
+			case <-r.done:
+				t2.Stop()
+			case <-t2.C:
+				r.hangs++
+				r.hungCmds[name] = true
+				r.report("wedged-after:"+name, args, "after %q had been answered, a plain DM.GET of key %q of the same DMap did not return within 10 s", args, k)
+				r.startWorker()
+				r.rebuild()
+				return
+			}
+		}
 	}
 }
 
